@@ -217,6 +217,28 @@ def run_cell(cell, seed):
                 okc, d, ratio = util.compare('x.grad vs native autograd (|g| ~ 1e-9)', g_second[1][0], util.np64(gn2), tol * 1e-9)
                 out.append(res(HELD, case2, 'M-JAC.native', ratio=ratio) if okc else
                            res(VIOLATED, case2, 'M-JAC.native', d, ratio=ratio))
+    # the caller post-processes the layer output IN PLACE before back-propagating (legal: autograd would
+    # complain if the layer had saved its output): the chain rule must still hold
+    case3 = {'cell': cell, 'check': 'output modified in place before backward'}
+    x3 = x0.clone().requires_grad_(True)
+    ok3, z3 = util.call_lib(mod, x3)
+    if ok3:
+        ok3, e3 = util.call_lib(lambda: z3.mul_(0.5).add_(1.0))
+        if not ok3:
+            out.append(res(core.SKIPPED, case3, 'M-JAC.native', 'torch refuses the in-place edit of the output'))
+    if ok3:
+        ok3, g3 = util.call_lib(torch.autograd.grad, [z3], [x3], [cot], allow_unused=True)
+        if not ok3:
+            out.append(res(VIOLATED, case3, 'M-JAC.native', 'backward after an in-place edit of the output raised %r' % (g3,)))
+        elif g3[0] is None:
+            out.append(res(VIOLATED, case3, 'M-JAC.native', 'no gradient delivered'))
+        else:
+            G = scatref.stage_gain(cell['biort'], cell['qshift'], cell['order'])
+            cond = max(1.0, float(x0.abs().max()) * G / cell['magbias'])
+            tol3 = 1e-11 * float(cot.abs().max()) * G * min(cond, 1e6) + 1e-300
+            okc, d, ratio = util.compare('x.grad vs 0.5 * first gradient', g3[0], 0.5 * util.np64(grad), tol3)
+            out.append(res(HELD, case3, 'M-JAC.native', ratio=ratio) if okc else
+                       res(VIOLATED, case3, 'M-JAC.native', d, ratio=ratio))
     # (ii) finite differences
     if cell['magbias'] >= 1e-2:
         case = {'cell': cell, 'check': 'fd'}
